@@ -458,7 +458,9 @@ class Vector():
 		>>> v.dropna()
 		Vector([1, 3, 5])
 		"""
-		return Vector(tuple(elem for elem in self._underlying if elem is not None), dtype=self._dtype.with_nullable(False))
+		# An empty, untyped vector has no dtype to carry over
+		dtype = self._dtype.with_nullable(False) if self._dtype is not None else None
+		return Vector(tuple(elem for elem in self._underlying if elem is not None), dtype=dtype)
 
 	def isna(self):
 		"""
